@@ -22,10 +22,11 @@ EXPLANATION = (
     "R-append-absent on the two appends of this method; R-label-alignment (labels are paired with groups "
     "in list order, which replace_group_leader keeps, never in the insertion order of `content`, which it "
     "changes); R-edits-serialised (effect analysis: every attribute an edit changes is written by "
-    "to_json from self.<attr>, or rebuilt by the loader)."
+    "to_json from self.<attr>, or rebuilt by the loader); R-single-table (summary and transform read the "
+    "per-feature features_dropna flag that a missing-value edit sets, not the constructor's dropna)."
 )
 NOT_DECIDED = "agreement of transform/summary/JSON after arbitrary edit sequences on data"
-FLOORS = {"R-numeric-only-call": 4, "R-labels-refreshed": 2, "R-mode-first": 1, "R-edit-semantics": 4, "R-append-absent": 2, "R-label-alignment": 2, "R-edits-serialised": 3}
+FLOORS = {"R-numeric-only-call": 4, "R-labels-refreshed": 2, "R-mode-first": 1, "R-edit-semantics": 4, "R-append-absent": 2, "R-label-alignment": 2, "R-edits-serialised": 3, "R-single-table": 2}
 
 NUMERIC_ONLY = {"isnan", "isfinite", "isinf", "isneginf", "isposinf"}
 
@@ -177,6 +178,9 @@ def check(ctx):
     from . import c04
 
     c04.rule_label_alignment(ctx)
+    from . import c16
+
+    c16.rule_nan_flag_source(ctx)
     rule_edits_serialised(ctx)
     rule_numeric_only(ctx)
     rule_update(ctx)
@@ -191,6 +195,7 @@ MUTANTS = [
     M("labels paired with groups in content (dict) order", [(F_BASE, "            for group_of_values, label in zip(groups, labels):\n                for value in values.get(group_of_values):\n                    label_per_value.update({value: label})\n", "            for group_values, label in zip(values.content.values(), labels):\n                label_per_value.update({value: label for value in group_values})\n")], "R-label-alignment", quick=True),
     M("D24-reverted: labels paired with the raw list order although str_nan is labelled last", [(F_BASE, "            for group_of_values, label in zip(groups, labels):", "            for group_of_values, label in zip(values, labels):")], "R-label-alignment", quick=True),
     M("features_dropna not serialised", [(F_BASE, "            \"features_dropna\": self.features_dropna,\n", "")], "R-edits-serialised", "features_dropna"),
+    M("D25-reverted: summary reads the global dropna", [(F_BASE, "                if not (not self.features_dropna[feature] and value == self.str_nan):", "                if not (not self.dropna and value == self.str_nan):")], "R-single-table", "features_dropna"),
     M("labels not refreshed", [(F_BASE, "            self.labels_per_values = self._get_labels_per_values(self.output_dtype)\n\n\ndef transform_quantitative_feature", "\n\ndef transform_quantitative_feature")], "R-labels-refreshed", quick=True),
     M("labels refreshed for mode group only", [(F_BASE, _REFRESH, "            # updating Carver values_orders and labels_per_values\n            self.values_orders.update({feature: order})\n            if mode == 'group':\n                self.labels_per_values = self._get_labels_per_values(self.output_dtype)\n")], "R-labels-refreshed"),
     M("labels refreshed with the wrong dtype", [(F_BASE, "            self.labels_per_values = self._get_labels_per_values(self.output_dtype)\n\n\ndef transform_quantitative_feature", "            self.labels_per_values = self._get_labels_per_values('str')\n\n\ndef transform_quantitative_feature")], "R-labels-refreshed"),
